@@ -101,13 +101,27 @@ def _make_views():
         def list_(self):          # a public name that avoids a keyword / builtin by a trailing underscore
             return 'tok-view-6-list_'
     views.append(V6)
+
+    # a view whose constructor fails with a KeyError (it looks something up in a mapping that lacks it): its methods are registered,
+    # so they are reachable - a call fails as an internal error, never as 'method not found'
+    class V7(pjrpc.server.ViewMixin):
+        def __init__(self):
+            super().__init__()
+            self.user = {}['user']
+
+        def get(self):
+            return 'tok-view-7-get'
+
+        def load(self):
+            return 'tok-view-7-load'
+    views.append(V7)
     return views
 
 
 FUNCS = _make_functions()
 VIEWS = _make_views()
 VIEW_PUBLIC = {0: ['get', 'put', 'stat'], 1: ['get', 'put', 'stat'], 2: ['get', 'put', 'stat', 'only2', 'cached'], 3: ['get', 'put', 'stat', 'extra'],
-               4: ['info', 'get'], 5: ['info', 'get'], 6: ['mixed', 'own', 'list_']}
+               4: ['info', 'get'], 5: ['info', 'get'], 6: ['mixed', 'own', 'list_'], 7: ['get', 'load']}
 # tokens of view 3: 'get' and 'extra' are its own, 'put' and 'stat' are inherited from view 0
 VIEW3_TOKENS = {'get': 'tok-view-3-get', 'extra': 'tok-view-3-extra', 'put': 'tok-view-0-put', 'stat': 'tok-view-0-stat'}
 
@@ -143,7 +157,7 @@ class C15(Check):
     def strategy(self, tier: str):
         s_fn = st.integers(0, len(FUNCS) - 1)
         s_reg = st.integers(0, 3)
-        s_view = st.sampled_from([0, 1, 2, 3, 4, 5, 4, 5, 6])
+        s_view = st.sampled_from([0, 1, 2, 3, 4, 5, 4, 5, 6, 7])
         s_op = st.one_of(
             st.builds(lambda r, f: ['add', r, f], s_reg, s_fn),
             st.builds(lambda r, f, n: ['add-name', r, f, n], s_reg, s_fn, st.sampled_from(EXPLICIT)),
@@ -200,7 +214,9 @@ class C15(Check):
 
         def view_tokens(v: int):
             for m in VIEW_PUBLIC[v]:
-                if m == 'only2' and kind == 'sync':
+                if v == 7:
+                    yield m, None   # the constructor raises KeyError: reachable (anything but -32601), no result to compare
+                elif m == 'only2' and kind == 'sync':
                     yield m, None   # coroutine under the sync dispatcher: reachable, but the result is not JSON - only reachability is probed
                 else:
                     yield m, (VIEW3_TOKENS[m] if v == 3 else f'tok-view-{v}-{m}')
